@@ -169,6 +169,52 @@ def check_numeric(ctx, prop, variant, blocks, moments):
                                    "model": f"DetModel({no},{nv},seed={ms})"})
 
 
+def check_mixed(ctx):
+    """mixed left/right variants (Properties(l_isr, r_isr) with different ADC variants on one ground state), decided by the
+    proved checker for all Hamiltonians / operator matrices / amplitude vectors:
+      (a) a particle-number conserving operator has no matrix elements between intermediate states of different particle
+          number: expec_block_contribution(order, (I_l, J_r)) = 0;
+      (b) transition moments requested for the left / right ISR equal those of the single-variant Properties object of that
+          variant (which the main part ties to the explicitly constructed intermediate states)."""
+    from adcgen import Operators, GroundState, IntermediateStates, Properties, Expr
+    DEFAULT = {"pp": (1, 1), "ip": (0, 1), "ea": (1, 0), "dip": (0, 2), "dea": (2, 0)}
+    pairs = [("pp", "ip"), ("ip", "ea")] if ctx.quick() else [("pp", "ip"), ("ip", "ea"), ("ea", "pp"), ("pp", "dip"), ("dea", "ip")]
+    for lv, rv in pairs:
+        gs = GroundState(Operators(variant="mp"))
+        l_isr, r_isr = IntermediateStates(gs, variant=lv), IntermediateStates(gs, variant=rv)
+        mixed = Properties(l_isr, r_isr)
+        single = {"left": Properties(l_isr), "right": Properties(r_isr)}
+        rep = {"kind": "mixed-variants", "left": lv, "right": rv}
+        for order in range(ctx.pick(2, 3)):
+            for npart in (1, 2):
+                if npart == 2 and order > 0:
+                    continue
+                try:
+                    code = mixed.expec_block_contribution(order, f"{MIN[lv]},{MIN[rv]}", n_particles=npart)
+                    (x,), _ = X.export_many([(Expr(code), "auto")], X.IdxCtx(registered_zero=True))
+                    ctx.case(("mixed-expec", lv, rv, order, npart), nontrivial=True)
+                    ctx.count("mixed_variant_checks")
+                    r = ctx.equiv(monic(distribute(x)), [], f"mixed expec {lv}/{rv} order {order}")
+                    judge(ctx, r, f"Properties({lv},{rv}).expec_block_contribution({order}, ({MIN[lv]},{MIN[rv]}), n_particles={npart}) is not "
+                          "zero although the operator conserves the particle number and the two intermediate states differ in it",
+                          dict(rep, order=order, result=str(code)[:400]))
+                except X.Unsupported as ex:
+                    ctx.skip(f"unsupported {str(ex)[:40]}")
+            for side, v in (("left", lv), ("right", rv)):
+                nc, na = DEFAULT[v]
+                try:
+                    a = mixed.trans_moment_space(order, MIN[v], n_create=nc, n_annihilate=na, lr_isr=side)
+                    b = single[side].trans_moment_space(order, MIN[v], n_create=nc, n_annihilate=na)
+                    (xa, xb), _ = X.export_many([(Expr(a), "auto"), (Expr(b), "auto")], X.IdxCtx(registered_zero=True))
+                    ctx.case(("mixed-transmom", lv, rv, side, order), nontrivial=True)
+                    ctx.count("mixed_variant_checks")
+                    r = ctx.equiv(monic(distribute(xa)), monic(distribute(xb)), f"mixed transmom {lv}/{rv} {side} order {order}")
+                    judge(ctx, r, f"Properties({lv},{rv}).trans_moment_space({order}, {MIN[v]}, lr_isr={side!r}) differs from the transition "
+                          f"moment of {v}-ADC", dict(rep, order=order, side=side, mixed=str(a)[:400], single=str(b)[:400]))
+                except X.Unsupported as ex:
+                    ctx.skip(f"unsupported {str(ex)[:40]}")
+
+
 def run(ctx):
     import os
     from adcgen import Operators, GroundState, IntermediateStates, Properties
@@ -185,6 +231,7 @@ def run(ctx):
                         ctx.skip(f"unsupported {str(ex)[:40]}")
         if "N" in part:
             check_numeric(ctx, prop, variant, blocks, moments)
+    check_mixed(ctx)
     # default operator string per variant
     for variant, want in (("pp", (1, 1)), ("ip", (0, 1)), ("ea", (1, 0)), ("dip", (0, 2)), ("dea", (2, 0))):
         prop = Properties(IntermediateStates(GroundState(Operators()), variant=variant))
@@ -209,7 +256,8 @@ def finish_args(ctx):
              "lowest class to order 2 and of the next class to order 1 with the default and (pp) a two-particle operator.  (1) "
              "ground-state shift clause decided by the proved checker per enumerated contribution; (2) every contribution evaluated "
              "in random canonical-HF determinant-space models with random operator matrices and amplitude vectors against explicit "
-             "matrix elements over explicitly constructed intermediate states",
+             "matrix elements over explicitly constructed intermediate states.  (3) mixed left/right variants (pp/ip, ip/ea; thorough "
+             "more): vanishing number-conserving blocks and transition moments per side, decided by the proved checker",
         trusted_base=["Lean 4.33 kernel", "axioms propext/Classical.choice/Quot.sound", "AdcProofs/Sem.lean", "python exporter",
                       "harness/isr_oracle.py, harness/detspace.py", "harness statement of the documented normalisation "
                       "(restricted vector x_I = sqrt(n_o! n_v!) X_I)"],
